@@ -444,7 +444,7 @@ func indexOf(hs []*holder, h *holder) int {
 }
 
 func TestProp_Lifecycle(t *testing.T) {
-	pbt.Run(t, pbt.Options{Prop: "C12", Name: "Lifecycle", Quick: 280, Thorough: 6000, Current: true, Timeout: 300 * time.Second,
+	pbt.Run(t, pbt.Options{Prop: "C12", Name: "Lifecycle", Quick: 280, Thorough: 1400, Current: true, Timeout: 300 * time.Second,
 		Rule: "rapid: 1-3 layers, resolver cache TTL 1 s, directory caches, memory or DB metadata store; 3-14 steps of resolve(layer, 1-3 concurrent calls) / read(holder, file) / Done / Close (evicting release) / sleep > TTL (max 2) / registry down / up / Check / Refresh / Resolve with the registry failing; " +
 			"oracle: a holder that has not released its layer reads correct bytes whatever expired, was evicted by another holder, failed or refreshed meanwhile; concurrent resolves of an uncached layer create exactly one fscache directory (one shared instance); a cache hit creates none; reads through released handles fail cleanly or return correct bytes; " +
 			"after all holders released and the TTL passed every fscache / httpcache directory and metadata bucket disappears within 20 s, and a new Resolve works. non-trivial = a holder read after its cache entry expired or was evicted by somebody else",
